@@ -31,13 +31,21 @@ MANIFEST = dict(
          "announced last, a registration that does not newly activate a network event type leaves station, repeat state and cache alone, the "
          "cache is dropped exactly when the identified station changes, programme label and time are decoded for listeners only, and WSS is "
          "announced only with valid parity after >= 3 identical repeats, not again while unchanged, and withdrawn only on a station change. "
+         "Time stamp jumps of vbi_decode (dropped frames) and empty frames are actions too: a jump alone raises nothing and keeps station and "
+         "cache; the drop-out countdown it arms expires only after 40 regular frames in which no change of the identified station was "
+         "announced (a station change after a gap = ONE network event, the cache dropped once) and is cancelled by a rolling page header. "
+         "The PDC label q deviates from p in exactly one field of vbi_program_id the carrier transmits (VPS: PIL, PTY, PCS; 8/30-2: PIL, PTY, "
+         "PCS, LCI, LUF, PRF, MI), the field taken in turn across the behaviours. "
          "The generated behaviours are replayed on the real decoder: event types, order, receiving handler, network id, CNI fields, "
          "PIL/PTY/PCS/LCI/LUF/PRF/MI, local time and offset, aspect payload and the sentinel page.",
     note="Bounded: <= 9 receptions in replay (5 with the full alphabet; thorough 10 / 6), <= 11 in MC; 3 station values per carrier, 2 labels, 2 times, "
          "2 handlers with <= 2 registrations in mid-stream; "
          "XDS (NTSC) is checked on its own because the network name field is shared with the station table name of the PAL carriers. The "
          "station table itself is trusted (two listed stations drawn from it). The concrete stations, PDC labels, times and WSS words depend on VERIF_SEED. "
-         "The channel switch countdown after dropped frames is part of ServiceDecoder (C01).",
+         "Gaps: one time stamp jump and two runs of empty frames (1 / 38 / 40 frames) among 5 receptions on VPS and 8/30-1 (thorough: two jumps, "
+         "three stations, WSS); the countdown expires in empty frames only (a reception is never the expiring frame) and gaps are not "
+         "combined with XDS (its units take several frames). What a drop-out alone does after 40 frames (cache dropped, NETWORK event without "
+         "station) is modelled as coded and left open by the property.",
 )
 
 WORKERS = 8
@@ -124,16 +132,12 @@ class Values:
             return dict(pil=rng.getrandbits(20), pty=rng.getrandbits(8), pcs=rng.randrange(4), lci=rng.randrange(4), luf=rng.randrange(2),
                         prf=rng.randrange(2), mi=rng.randrange(2))
         p = label()
-        q = dict(p)                     # q differs from p in ONE field that VPS and 8/30-2 both carry
-        f = rng.choice(["pil", "pil", "pty", "pcs"])
-        if f == "pil":
-            q["pil"] = p["pil"] ^ (1 << rng.randrange(20))
-        elif f == "pty":
-            q["pty"] = p["pty"] ^ (1 << rng.randrange(8))
-        else:
-            q["pcs"] = (p["pcs"] + 1 + rng.randrange(3)) % 4
-        r = label()
-        self.label = dict(p=p, q=q, r=r)
+        # q differs from p in exactly ONE field of vbi_program_id that the carrier transmits; WHICH field is taken in turn across the
+        # generated behaviours (q_fields below), so that "announced only after received again unchanged" is decided for every field
+        self.alt = dict(pil=p["pil"] ^ (1 << rng.randrange(20)), pty=p["pty"] ^ (1 << rng.randrange(8)),
+                        pcs=(p["pcs"] + 1 + rng.randrange(3)) % 4, lci=(p["lci"] + 1 + rng.randrange(3)) % 4,
+                        luf=p["luf"] ^ 1, prf=p["prf"] ^ 1, mi=p["mi"] ^ 1)
+        self.label = dict(p=p)
 
         def atime(sign):
             mjd = rng.randrange(40587, 99999)
@@ -157,6 +161,13 @@ class Values:
         self.wss["bad"] = (self.wss["y"][0] ^ (1 << rng.randrange(4)), self.wss["y"][1])
         self.aspect["adefault"] = ASPECT_DEFAULT
 
+    def lab(self, c, l, qf):
+        """the label a station transmits for symbol l on carrier c when q's deviating field on that carrier is qf[c]"""
+        lb = dict(self.label["p"])
+        if l == "q":
+            lb[qf[c]] = self.alt[qf[c]]
+        return lb
+
     def time_args(self, l):
         if l == "bad":                  # a digit that is not BCD
             t = self.time["t"]
@@ -170,7 +181,23 @@ def mask_str(m):
     return "|".join(t for t in TYPE_ORDER if t in m) or "0"
 
 
-def line_of(act, val):
+# the fields of vbi_program_id a carrier transmits besides the CNI (which the model varies itself: a / b / u)
+Q_FIELDS = dict(vps=["pil", "pty", "pcs"], p2=["pil", "pty", "pcs", "lci", "luf", "prf", "mi"])
+QF_DEFAULT = dict(vps="pil", p2="pil")
+
+
+def q_fields(behs):
+    """per behaviour the field in which label q deviates from p on VPS / in 8/30-2: taken in turn over the behaviours that
+    transmit q on that carrier (the behaviours are sorted first: TLC's output order depends on its worker threads)"""
+    out, k = [], dict(vps=0, p2=0)
+    for b in behs:
+        out.append({c: Q_FIELDS[c][k[c] % len(Q_FIELDS[c])] for c in k})
+        for c in k:
+            k[c] += any(st["act"].get("c") == c and st["act"].get("l") == "q" for st in b)
+    return out
+
+
+def line_of(act, val, qf=QF_DEFAULT):
     a = act["a"]
     if a == "Init":
         return "H r 0 %s" % mask_str(act["m"])
@@ -184,27 +211,33 @@ def line_of(act, val):
         return "L %s" % CALL[act["v"]]
     if a == "Wss":
         return "W %02x %02x" % val.wss[act["w"]]
+    if a == "Gap":
+        return "G"
+    if a == "Idle":
+        return "F %d" % act["n"]
     c, v, l = act["c"], act["v"], act["l"]
     if c == "vps":
-        lb = val.label[l]
+        lb = val.lab(c, l, qf)
         return "V %x %x %x %x" % (val.code[c][v], lb["pil"], lb["pty"], lb["pcs"])
     if c == "p1":
         return "1 %x %s" % (val.code[c][v], val.time_args(l))
     if c == "p2":
-        lb = val.label["p" if l == "bad" else l]
+        lb = val.lab(c, "p" if l == "bad" else l, qf)
         return "2 %x %x %x %x %x %x %x %x%s" % (val.code[c][v], lb["pil"], lb["lci"], lb["luf"], lb["prf"], lb["pcs"], lb["mi"], lb["pty"],
                                               " x" if l == "bad" else "")
     return "N %s" % val.code[c][v]
 
 
-def expect(st, val):
+def expect(st, val, qf=QF_DEFAULT):
     """model events -> the fields the driver prints"""
     out = []
     for e in st["evs"]:
         t, c, v, l = e["t"], e["c"], e["v"], e["l"]
         o = dict(h=SLOT[e["h"]], t=t)
         if t in ("NETWORK", "NETWORK_ID"):
-            if c == "xds":
+            if c == "cd":              # the drop-out event: the zeroed network record
+                o.update(nuid=0, cni_vps=0, cni_8301=0, cni_8302=0, name="", call="")
+            elif c == "xds":
                 o["nuid_sym"] = e["nuid"]
                 o["name"] = val.code[c][v]
                 o["call"] = CALL[e.get("call", "0")]
@@ -212,7 +245,7 @@ def expect(st, val):
                 o["nuid"] = val.nuid[e["nuid"]]
                 o[{"vps": "cni_vps", "p1": "cni_8301", "p2": "cni_8302"}[c]] = val.code[c][v]
         elif t == "PROG_ID":
-            lb = val.label[l]
+            lb = val.lab(c, l, qf)
             if c == "vps":
                 o.update(cni_type=CNI_TYPE_VPS, cni=val.code[c][v], pil=lb["pil"], ch=PID_CHANNEL_VPS, luf=0, mi=1, prf=0, pcs=lb["pcs"], pty=lb["pty"])
             else:
@@ -244,22 +277,22 @@ def matches(exp, got, xmap):
     return True
 
 
-def script_of(b, val):
+def script_of(b, val, qf=QF_DEFAULT):
     """the Init step registers handler h1 and, if Teletext is decoded, is followed by the sentinel page"""
-    s = [line_of(b[0]["act"], val)]
+    s = [line_of(b[0]["act"], val, qf)]
     if "TTX_PAGE" in b[0]["act"]["m"]:
         s.append("T")
-    return s + [line_of(st["act"], val) for st in b[1:]]
+    return s + [line_of(st["act"], val, qf) for st in b[1:]]
 
 
-def compare(b, got, val):
+def compare(b, got, val, qf=QF_DEFAULT):
     xmap = {}
     skip = 1 if "TTX_PAGE" in b[0]["act"]["m"] else 0          # answer to the initial T
     if len(got) < len(b) + skip:
         return (len(got), "diverge:crash", "driver stopped")
     got = got[skip:]                 # got[0]: the state after the registration of h1 (and the sentinel page), got[n]: after step n
     for n, st in enumerate(b):
-        e = expect(st, val)
+        e = expect(st, val, qf)
         g = got[n]
         act = st["act"]
         name = act.get("c", act["a"])
@@ -277,11 +310,13 @@ def compare(b, got, val):
 
 def interesting(b):
     """does the behaviour exercise the property: an announcement, a suppressed one or a registration between receptions"""
-    return any(st["evs"] or st["raised"] for st in b) or any(st["act"]["a"] in ("Register", "Unregister") for st in b)
+    return any(st["evs"] or st["raised"] for st in b) or any(st["act"]["a"] in ("Register", "Unregister", "Gap") for st in b)
 
 
 def run_set(ctx, drv, behs, label, val):
-    scripts = [script_of(b, val) for b in behs]
+    behs = sorted(behs, key=lambda b: json.dumps([st["act"] for st in b], sort_keys=True))
+    qfs = q_fields(behs)
+    scripts = [script_of(b, val, qf) for b, qf in zip(behs, qfs)]
     chunks = [list(range(k, len(behs), WORKERS)) for k in range(WORKERS)]
 
     def job(idx):
@@ -291,11 +326,11 @@ def run_set(ctx, drv, behs, label, val):
             r, b = res[j], behs[i]
             if r.get("skipped"):
                 continue
-            rp = dict(script=scripts[i], beh=b, seed=ctx.seed)
+            rp = dict(script=scripts[i], beh=b, seed=ctx.seed, qf=qfs[i])
             ctx.count_case(scripts[i], nontrivial=interesting(b))
             if r["stderr"]:
                 core.report_sanitizers(ctx, r["stderr"], replay=rp, in_scope=False)
-            bad = compare(b, r["lines"], val)
+            bad = compare(b, r["lines"], val, qfs[i])
             if bad is None:
                 ctx.validated()
             else:
@@ -308,18 +343,18 @@ def run_set(ctx, drv, behs, label, val):
 
 # (the generator runs are model checking runs too: the same invariants and action properties are checked there)
 MC_CFG = dict(quick=["MC_Announce_h", "MC_Announce_xds"],
-              thorough=["MC_Announce_t", "MC_Announce_ht", "MC_Announce_wt", "MC_Announce_xds"])
-GEN_CFG = dict(quick=["Gen_Announce_q", "Gen_Announce_h", "Gen_Announce_h1", "Gen_Announce_w", "Gen_Announce_xds"],
-               thorough=["Gen_Announce_t", "Gen_Announce_ht", "Gen_Announce_h1", "Gen_Announce_wt", "Gen_Announce_xdst"])
+              thorough=["MC_Announce_t", "MC_Announce_ht", "MC_Announce_wt", "MC_Announce_xds", "MC_Announce_gt"])
+GEN_CFG = dict(quick=["Gen_Announce_q", "Gen_Announce_h", "Gen_Announce_h1", "Gen_Announce_w", "Gen_Announce_xds", "Gen_Announce_g"],
+               thorough=["Gen_Announce_t", "Gen_Announce_ht", "Gen_Announce_h1", "Gen_Announce_wt", "Gen_Announce_xdst", "Gen_Announce_gt",
+                         "Gen_Announce_gw"])
 
 
 def run(ctx):
     val = Values(ctx.seed)
     ctx.cov["rule"] = ("cases = behaviours (receptions and registrations) generated from the Announce model, one into every distinct model state "
-                       "at the reception bound, replayed on the real decoder; distinct by driver script; non-trivial = an event is raised or a "
-                       "handler is registered / unregistered in mid-stream")
-    ctx.assumptions += ["the station table (src/network-table.h) is trusted", "timestamps advance by one frame per reception (no frame dropping; "
-                        "the countdown after dropped frames is modelled in ServiceDecoder, C01)",
+                       "at the reception bound, replayed on the real decoder; distinct by driver script; non-trivial = an event is raised, a "
+                       "handler is registered / unregistered in mid-stream or the time stamps jump")
+    ctx.assumptions += ["the station table (src/network-table.h) is trusted", "timestamps advance by one frame per reception except at the modelled jumps (Gap: +1 s)",
                         "the VPS and packet 8/30 encoders (C12) are trusted as transmitter"]
     drv = build.build_driver("drv_announce")
 
@@ -356,7 +391,7 @@ def replay(ctx, rp):
     res = core.run_seq_driver([drv], [r["script"]], env=build.san_env())[0]
     for l, g in zip(r["script"], res["lines"]):
         print(l, "->", g)
-    bad = compare(r["beh"], res["lines"], val)
+    bad = compare(r["beh"], res["lines"], val, r.get("qf", QF_DEFAULT))
     if bad:
         ctx.violate("replay", bad[1], bad[2], r)
 
